@@ -19,7 +19,11 @@ Two layers. The first part states the properties on the list model (`Model/Cinem
 positions, a list of times and an association list of columns). The second part ("on the feature table") states them
 on the programs as the Python runs them — through the Track API, `Model/CinematicsTab.lean` — for EVERY
 representation of the feature table that satisfies the laws `CinTab.Laws`, and shows that the specification table
-of C01 and the world of observation objects shared between tracks are such representations.
+of C01, C01's dict-and-rows table of a single track (`dict_rows_table_lawful`) and the world of observation objects
+shared between tracks are such representations. On the world every observation object carries the eight fields of its
+`ObsTime` (seven calendar fields and `zone`): no operation on features — the method `track.estimate_speed()` included,
+`speed_method_is_function` — writes one of them (`positions_and_stamps_unchanged`) and none reads the zone
+(`zone_not_read`): elapsed times are differences of clock readings.
 
 Third part ("per coordinate class", model `Model/CinematicsCoords.lean`): the same Python run on tracks whose positions
 are `ENUCoords`, `GeoCoords` or `ECEFCoords` — which `distance2DTo` each feature dispatches to, the statement for every
